@@ -7,7 +7,7 @@ from . import chainrun
 TABLE = {
     # id: (scenarios quick, extra scenarios thorough, tags, functional, what)
     "C03": (["eras", "bankmixed", "corners"], ["bank", "staking", "dups", "admission"], [1, 6], False, "balances and batch status"),
-    "C04": (["eras", "bank", "zeroing"], ["staking", "rates", "admission"], [1], True, "balances (per-asset supply is their column sum)"),
+    "C04": (["eras", "bank", "zeroing", "corners", "align"], ["staking", "rates", "admission"], [1], True, "balances (per-asset supply is their column sum)"),
     "C06": (["dups", "corners", "gaps"], ["eras", "bank"], [1, 6, 9, 10], True, "balances, batch status, holding and relation rows"),
     "C07": (["gaps", "corners"], ["eras", "admission", "bank", "avgzero"], [1, 6, 7, 9], True, "balances, execution height and converted amounts"),
     "C08": (["malformed", "dups", "corners"], ["eras", "top100", "zerocollide", "bankmixed"], [13, 14], False, "which blocks apply"),
